@@ -19,7 +19,8 @@ from symx.core import Sym, Ctx, symarray, qval, is_nan
 from symx.report import fl, concretiser
 
 FUNCTIONS_Q = ["window_rejection.sta_lta_window_rejection", "window_rejection.maximum_value_window_rejection"]
-STUBS = ["matplotlib/pandas/IPython -> recorders (import only)", "np.mean / np.max / reshape are numpy's own code on the symbolic arrays"]
+STUBS = ["matplotlib/pandas/IPython -> recorders (import only)", "np.mean / np.max / reshape are numpy's own code on the symbolic arrays",
+         "np.isclose / np.allclose on symbolic values -> the documented inequality over the reals (fork)"]
 ASSUMPTIONS = ["floats as reals", "STA/LTA lengths are concrete per instance (the chunk length int(seconds // dt) is computed by the code itself)"]
 OUTSIDE = ["the value of int(seconds // dt) for lengths that are not exactly representable (observed, not asserted: the property does not fix it)",
            "LTA = 0 (division by zero: degenerate path)", "more than 3 windows / 6 samples"]
